@@ -47,6 +47,7 @@ import (
 	"github.com/0xPolygon/cdk-contracts-tooling/contracts/pp/l2-sovereign-chain/polygonzkevmglobalexitrootv2"
 	"github.com/agglayer/aggkit/bridgesync"
 	"github.com/agglayer/aggkit/l1infotreesync"
+	"github.com/agglayer/aggkit/reorgdetector"
 	aggsync "github.com/agglayer/aggkit/sync"
 	"github.com/agglayer/aggkit/test/contracts/transparentupgradableproxy"
 	"github.com/agglayer/aggkit/test/contracts/verifybatchesmock"
@@ -396,6 +397,8 @@ type l1side struct {
 	node  *l1infotreesync.L1InfoTreeSync
 	dl    *aggsync.EVMDownloaderImplementation
 	nRoll int
+	// block of the first GER / rollup manager event of the history (0 = none yet)
+	firstEvent uint64
 }
 
 func newL1Side(o *world) (*l1side, error) {
@@ -1045,7 +1048,90 @@ func runL1Env(w *tr.W, rng *rand.Rand, dir string, t, nSteps int) error {
 			return err
 		}
 		w.Emit(tr.M{"ev": "sync", "blk": h.Number.Uint64(), "bridge_contract": -1, "bridge_node": -1, "l1_contract": lc, "l1_node": ln})
+		if s.firstEvent == 0 && (lc > 0 || len(s.ust) > 0) {
+			s.firstEvent = h.Number.Uint64()
+		}
+	}
+	// the whole syncer as cmd/run.go builds it (l1infotreesync.New: constructor, real downloader, real driver), started now on
+	// the finished history with a configured InitialBlock at or below the block of the first event
+	if s.firstEvent > 0 {
+		ibs := []uint64{0, s.firstEvent}
+		if s.firstEvent > 1 {
+			ibs = append(ibs, s.firstEvent-1)
+		}
+		if err := s.second(ibs[rng.Intn(len(ibs))], uint64(1+rng.Intn(7))); err != nil {
+			return err
+		}
 	}
 	ambiguous(w, s.dict, s.udict)
+	return nil
+}
+
+type noReorgs struct{}
+
+func (noReorgs) Subscribe(string) (*reorgdetector.Subscription, error) {
+	return &reorgdetector.Subscription{ReorgedBlock: make(chan uint64), ReorgProcessed: make(chan bool)}, nil
+}
+func (noReorgs) AddBlockToTrack(context.Context, string, uint64, common.Hash) error { return nil }
+func (noReorgs) GetFinalizedBlockType() aggkittypes.BlockNumberFinality {
+	return aggkittypes.LatestBlock
+}
+func (noReorgs) String() string { return "verif: no reorgs" }
+
+// second starts a second node through the real constructor with InitialBlock = ib, lets it sync the finished history and
+// records what it answers for every leaf and for the rollup exit tree (judged like the first node's answers).
+func (s *l1side) second(ib, chunk uint64) error {
+	ctx, cancel := context.WithCancel(s.o.ctx)
+	defer cancel()
+	tip, err := s.o.cl.BlockNumber(ctx)
+	if err != nil {
+		return err
+	}
+	n2, err := l1infotreesync.New(ctx, filepath.Join(s.o.dir, "l1info-second.sqlite"), s.o.gerAddr, s.o.mockAddr, chunk, aggkittypes.LatestBlock,
+		noReorgs{}, s.o.cl, time.Millisecond, ib, time.Millisecond, 5, l1infotreesync.FlagAllowWrongContractsAddrs, aggkittypes.LatestBlock, false)
+	if err != nil {
+		s.o.w.Emit(tr.M{"ev": "second", "ib": ib, "first": s.firstEvent, "chunk": chunk, "c": "error", "err": err.Error(), "leaves": []tr.M{}, "n": s.nI, "rer_c": "skip"})
+		return nil
+	}
+	done := make(chan struct{})
+	go func() { n2.Start(ctx); close(done) }()
+	synced := false
+	for t0 := time.Now(); time.Since(t0) < 30*time.Second; time.Sleep(2 * time.Millisecond) {
+		if lpb, err := n2.GetLastProcessedBlock(ctx); err == nil && lpb >= tip {
+			synced = true
+			break
+		}
+	}
+	m := tr.M{"ev": "second", "ib": ib, "first": s.firstEvent, "chunk": chunk, "c": map[bool]string{true: "ok", false: "notsynced"}[synced], "n": s.nI}
+	leaves := []tr.M{}
+	for i := 0; i < s.nI; i++ {
+		lm := tr.M{"i": i}
+		info, err := n2.GetInfoByIndex(ctx, uint32(i))
+		lm["c"] = classify(err)
+		if err == nil {
+			lm["leaf"], lm["ger"] = s.dict.Of(info.Hash), s.gerName(info.GlobalExitRoot)
+		}
+		r, err := n2.GetL1InfoTreeRootByIndex(ctx, uint32(i))
+		lm["root_c"] = classify(err)
+		if err == nil {
+			lm["root"] = s.dict.Of(r.Hash)
+		}
+		leaves = append(leaves, lm)
+	}
+	m["leaves"] = leaves
+	m["rer_c"] = "skip"
+	if len(s.ust) > 0 {
+		r, err := n2.GetLastRollupExitRoot(ctx)
+		m["rer_c"] = classify(err)
+		if err == nil {
+			m["rer"] = s.udict.Of(r.Hash)
+		}
+	}
+	s.o.w.Emit(m)
+	cancel()
+	select {
+	case <-done:
+	case <-time.After(5 * time.Second):
+	}
 	return nil
 }
